@@ -75,6 +75,20 @@ def libDecode (lib : Lib) (a : Alg) (c : Bytes) : LibRes :=
   | .snappy => lib.snappy c
   | .zstd => lib.zstd c
 
+/-- A library encoder (one per algorithm); `compress` is the wrapper around it: every
+    `compressX` in compressor.go returns the library's bytes, or its error, unchanged. -/
+abbrev Enc := Alg → Bytes → LibRes
+
+/-- `compressor.Compress` -/
+def compress (enc : Enc) (a : Alg) (x : Bytes) : Res :=
+  match enc a x with
+  | .ok c => .ok c
+  | .err => .err
+
+/-- The assumption under which round trips hold: the library decodes what it encoded. -/
+def LibRoundTrips (enc : Enc) (lib : Lib) : Prop :=
+  ∀ a x c, enc a x = .ok c → libDecode lib a c = .ok x
+
 def Cfg.allPropagate (cfg : Cfg) : Bool :=
   cfg.gzipNewReader == .propagates && cfg.gzipRead == .propagates && cfg.lz4Read == .propagates &&
   cfg.snappyDecode == .propagates && cfg.zstdDecode == .propagates
